@@ -215,7 +215,7 @@ func c05Run(c *mc.Ctx) {
 			if !c.Mine(idx) {
 				continue
 			}
-			if k&0xFFFF == 0 && c.Expired() {
+			if c.Due(0xFFFF) {
 				c.Note(fmt.Sprintf("deadline hit in sequences of length %d", lv.n))
 				return
 			}
@@ -305,7 +305,7 @@ func c05Run(c *mc.Ctx) {
 		if !c.Mine(base + k) {
 			continue
 		}
-		if k&0xFFF == 0 && c.Expired() {
+		if c.Due(0xFFF) {
 			c.Note("deadline hit in long lines")
 			return
 		}
